@@ -28,6 +28,17 @@
 #include "stir/Shape/Shape3D.h"
 #include "stir/data/SinglesRates.h"
 #include "stir/IO/OutputFileFormat.h"
+#include "stir/IO/InterfileOutputFileFormat.h"
+#include "stir/IO/interfile.h"
+#include "stir/IO/read_from_file.h"
+#include "stir/IO/write_to_file.h"
+#include "stir/VoxelsOnCartesianGrid.h"
+#include "stir/IndexRange3D.h"
+#include "stir/ProjDataInterfile.h"
+#include "stir/ProjData.h"
+#include "stir/SegmentBySinogram.h"
+#include "stir/ExamInfo.h"
+#include <sys/stat.h>
 #include <iostream>
 #include <sstream>
 
@@ -118,6 +129,257 @@ static int replay(const std::string& genpath, const std::string& outpath) {
 }
 
 
+// ------------------------------------------------------------------------------------ part (b)
+// A header written by the library itself, and single-site line-level edits of it:
+// mutated header = base[1..keep] ++ fresh ++ base[keep+skip+1..n]   (nl: the last line ends with a newline)
+struct Mutation { std::string kind; int at; int keep, skip; std::vector<std::string> fresh; bool nl; };
+struct HdrCase {
+  int hid; std::string kind, dir, hdrname, datafile; long datalen; std::vector<std::string> lines; bool nl; std::string written;
+  std::vector<std::string> readers; std::vector<Mutation> muts;
+};
+
+static std::vector<std::string> read_lines(const std::string& path, bool& nl) {
+  std::ifstream f(path, std::ios::binary);
+  std::stringstream ss; ss << f.rdbuf();
+  std::string t = ss.str();
+  nl = !t.empty() && t.back() == '\n';
+  std::vector<std::string> out;
+  std::string cur;
+  for (char c : t) { if (c == '\n') { out.push_back(cur); cur.clear(); } else cur += c; }
+  if (!cur.empty()) out.push_back(cur);
+  return out;
+}
+static long file_len(const std::string& p) { struct stat st; return stat(p.c_str(), &st) == 0 ? (long)st.st_size : -1; }
+static std::string trim(const std::string& s) {
+  auto a = s.find_first_not_of(" \t"); if (a == std::string::npos) return "";
+  auto b = s.find_last_not_of(" \t"); return s.substr(a, b - a + 1);
+}
+static bool is_int_text(const std::string& v) {
+  if (v.empty()) return false;
+  size_t i = (v[0] == '-' || v[0] == '+') ? 1 : 0;
+  if (i >= v.size()) return false;
+  for (; i < v.size(); ++i) if (!isdigit((unsigned char)v[i])) return false;
+  return true;
+}
+
+// the edits of one header (no knowledge of what they should cause: TLC decides)
+static void make_mutations(HdrCase& c, int level) {
+  const int n = (int)c.lines.size();
+  auto add = [&](const std::string& kind, int at, int keep, int skip, std::vector<std::string> fresh, bool nl) { c.muts.push_back({ kind, at, keep, skip, fresh, nl }); };
+  add("none", 0, n, 0, {}, c.nl);
+  for (int k = 1; k <= n; ++k) {
+    const std::string& L = c.lines[k - 1];
+    add("delete", k, k - 1, 1, {}, c.nl);
+    add("dup", k, k, 0, { L }, c.nl);
+    add("truncate", k, k - 1, n - k + 1, {}, true);            // header = lines 1..k-1
+    if (level > 0 || k % 3 == 0) add("truncate_nonl", k, k, n - k, {}, false);   // lines 1..k, no final newline
+    if (k < n) add("swap", k, k - 1, 2, { c.lines[k], L }, c.nl);
+    const auto as = L.find(":=");
+    if (as == std::string::npos) continue;
+    const std::string key = L.substr(0, as), val = trim(L.substr(as + 2));
+    // keyword respelled: case, white space, underscores, exclamation mark
+    {
+      std::string r = "!";
+      for (char ch : key) { if (ch == ' ') r += (r.size() % 2 ? "_" : "  "); else if (ch != '!') r += (char)toupper((unsigned char)ch); }
+      add("respell", k, k - 1, 1, { r + ":=" + L.substr(as + 2) }, c.nl);
+    }
+    // index changes
+    const auto lb = key.find('['), rb = key.find(']');
+    if (lb != std::string::npos && rb != std::string::npos && rb > lb) {
+      const int i = atoi(key.substr(lb + 1, rb - lb - 1).c_str());
+      for (std::string j : { std::string("0"), std::to_string(i + 1), std::string("99"), std::string("-1"), std::string("4294967297"), std::string("") })
+        add("reindex", k, k - 1, 1, { key.substr(0, lb) + (j.empty() ? "" : "[" + j + "]") + key.substr(rb + 1) + ":=" + L.substr(as + 2) }, c.nl);
+    } else if (level > 0 || k % 4 == 0)
+      add("reindex", k, k - 1, 1, { key + "[1] :=" + L.substr(as + 2) }, c.nl);
+    // value replacement
+    std::vector<std::string> vals;
+    if (is_int_text(val)) {
+      const long v = atol(val.c_str());
+      vals = { "0", "-1", "1", std::to_string(v + 1), std::to_string(v > 1 ? v - 1 : 7), "2000000000", "99999999999", "" , "abc" };
+    } else if (!val.empty() && val[0] == '{') {
+      vals = { "{}", "{1}", val.substr(0, val.size() - 1) + ",7}", "{0" + val.substr(val.find_first_of(",}")), "{-1" + val.substr(val.find_first_of(",}")),
+               "{2000000000" + val.substr(val.find_first_of(",}")), val.substr(0, val.size() - 1), "7", "" };
+    } else if (!val.empty()) {
+      vals = { "", "nonsense", "0", "-1" };
+    } else
+      vals = { "1" };
+    for (auto& v : vals) add("value", k, k - 1, 1, { key + ":= " + v }, c.nl);
+  }
+  // every byte of the last line
+  {
+    const std::string& L = c.lines[n - 1];
+    for (size_t b = 0; b < L.size(); ++b) add("bytes", (int)b, n - 1, 1, { L.substr(0, b) }, false);
+  }
+  // keys the library did not write, inserted before the last line
+  for (std::string ins : { "number of time frames := 0", "number of time frames := -1", "number of time frames := 2000000000", "number of time frames := 2",
+                           "image scaling factor[1] := {1,2}", "image scaling factor[1] := 2", "image scaling factor[2] := 2",
+                           "data offset in bytes[1] := 8", "data offset in bytes[1] := -1", "data offset in bytes[1] := 99999999999", "data offset in bytes[2] := 0",
+                           "quantification units := 2", "number of image data types := 0", "number of image data types := 2", "number of energy windows := -1",
+                           "number of energy windows := 2000000000", "number of energy windows := 0", "energy window lower level[1] := 300",
+                           "!type of data := Tomographic", "!type of data := nonsense", "imaging modality := NM", "patient orientation := sideways",
+                           "matrix size [1] := {}", "matrix size [1] := {3,3}", "number of dimensions := 3", "number of dimensions := 0", "number of dimensions := -1",
+                           "number of dimensions := 2000000000", "image duration (sec)[1] := 3", "image relative start time (sec)[2] := 3",
+                           "%sms-mi version number := 1", "version of keys := STIR3.0", "TOF bin order := {0,1}", "applied corrections := {arc correction}",
+                           "; a comment", "", "   ", "unknown key := 3", "!INTERFILE :=" })
+    add("insert", n, n - 1, 0, { ins }, c.nl);
+  add("append", n, n, 0, { "matrix size [1] := 2000000000", "junk after the end" }, c.nl);
+}
+
+static std::vector<std::string> mutated(const HdrCase& c, const Mutation& m) {
+  std::vector<std::string> out(c.lines.begin(), c.lines.begin() + m.keep);
+  out.insert(out.end(), m.fresh.begin(), m.fresh.end());
+  out.insert(out.end(), c.lines.begin() + std::min<size_t>(c.lines.size(), m.keep + m.skip), c.lines.end());
+  return out;
+}
+
+static std::string obs_image(const VoxelsOnCartesianGrid<float>* im, const std::string& verdict, const std::string& msg) {
+  long x = 0, y = 0, z = 0, mx = 0, my = 0, mz = 0;
+  if (im) {
+    z = im->get_z_size(); y = im->get_y_size(); x = im->get_x_size();
+    mz = im->get_min_z(); my = im->get_min_y(); mx = im->get_min_x();
+  }
+  return "{\"verdict\":\"" + verdict + "\",\"kind\":\"\",\"msg\":" + c17::jstr(msg.substr(0, 120)) + ",\"x\":" + std::to_string(x) + ",\"y\":" + std::to_string(y) + ",\"z\":"
+         + std::to_string(z) + ",\"minx\":" + std::to_string(mx) + ",\"miny\":" + std::to_string(my) + ",\"minz\":" + std::to_string(mz) + "}";
+}
+static std::string obs_pd(const ProjData* pd, const std::string& verdict, const std::string& msg) {
+  long segs = 0, views = 0, bins = 0, tof = 0;
+  std::vector<int> axial;
+  bool readok = false;
+  if (pd) {
+    segs = pd->get_num_segments(); views = pd->get_num_views(); bins = pd->get_num_tangential_poss(); tof = pd->get_num_tof_poss();
+    for (int s = pd->get_min_segment_num(); s <= pd->get_max_segment_num(); ++s) axial.push_back(pd->get_num_axial_poss(s));
+    // read every bin the header announces
+    readok = !vh::threw([&] {
+      for (int t = pd->get_min_tof_pos_num(); t <= pd->get_max_tof_pos_num(); ++t)
+        for (int s = pd->get_min_segment_num(); s <= pd->get_max_segment_num(); ++s) {
+          SegmentBySinogram<float> seg = pd->get_segment_by_sinogram(s, t);
+          (void)seg;
+        }
+    });
+  }
+  return "{\"verdict\":\"" + verdict + "\",\"kind\":\"\",\"msg\":" + c17::jstr(msg.substr(0, 120)) + ",\"segs\":" + std::to_string(segs) + ",\"views\":" + std::to_string(views)
+         + ",\"bins\":" + std::to_string(bins) + ",\"tof\":" + std::to_string(tof) + ",\"axial\":" + c17::jints(axial) + ",\"readok\":" + (readok ? "true" : "false") + "}";
+}
+
+static std::string run_reader(const std::string& reader, const std::string& path) {
+  std::string msg;
+  if (reader == "img_direct") {
+    VoxelsOnCartesianGrid<float>* im = nullptr;
+    const bool th = vh::threw([&] { im = read_interfile_image(path); }, &msg);
+    std::string o = obs_image(th ? nullptr : im, th ? "error" : (im ? "accepted" : "null"), msg);
+    delete im;
+    return o;
+  }
+  if (reader == "img_generic") {
+    unique_ptr<DiscretisedDensity<3, float>> d;
+    const bool th = vh::threw([&] { d = read_from_file<DiscretisedDensity<3, float>>(path); }, &msg);
+    auto* im = dynamic_cast<VoxelsOnCartesianGrid<float>*>(d.get());
+    return obs_image(th ? nullptr : im, th ? "error" : (im ? "accepted" : "null"), msg);
+  }
+  if (reader == "pd_direct") {
+    ProjDataFromStream* pd = nullptr;
+    const bool th = vh::threw([&] { pd = read_interfile_PDFS(path, std::ios::in); }, &msg);
+    std::string o = obs_pd(th ? nullptr : pd, th ? "error" : (pd ? "accepted" : "null"), msg);
+    delete pd;
+    return o;
+  }
+  shared_ptr<ProjData> pd;
+  const bool th = vh::threw([&] { pd = ProjData::read_from_file(path); }, &msg);
+  return obs_pd(th ? nullptr : pd.get(), th ? "error" : (pd ? "accepted" : "null"), msg);
+}
+
+static int hdr_mode(const std::string& work, const std::string& outpath, int level, const std::string& only) {
+  std::vector<HdrCase> cases;
+  auto finish_case = [&](HdrCase& c, const std::string& hdrfile) {
+    c.lines = read_lines(c.dir + "/" + hdrfile, c.nl);
+    c.datalen = file_len(c.dir + "/" + c.datafile);
+    make_mutations(c, level);
+    cases.push_back(c);
+  };
+  shared_ptr<ExamInfo> ei(new ExamInfo);
+  ei->imaging_modality = ImagingModality::PT;
+  int hid = 0;
+  auto mkdir_case = [&](const std::string& name) { std::string d = work + "/" + name; mkdir(d.c_str(), 0755); return d; };
+  {  // image, float
+    HdrCase c; c.hid = ++hid; c.kind = "image"; c.dir = mkdir_case("img"); c.hdrname = "mut.hv"; c.datafile = "img.v";
+    VoxelsOnCartesianGrid<float> im(ei, IndexRange3D(0, 2, -2, 1, -2, 2), CartesianCoordinate3D<float>(0, 0, 0), CartesianCoordinate3D<float>(3.F, 2.F, 2.F));
+    im.fill(1.F);
+    std::string fn = c.dir + "/img";
+    write_to_file(fn, im);
+    c.written = "{\"x\":5,\"y\":4,\"z\":3}";
+    c.readers = { "img_direct", "img_generic" };
+    finish_case(c, "img.hv");
+  }
+  if (level > 0) {  // image, 16-bit integers with a scale factor
+    HdrCase c; c.hid = ++hid; c.kind = "image"; c.dir = mkdir_case("imgs"); c.hdrname = "mut.hv"; c.datafile = "imgs.v";
+    VoxelsOnCartesianGrid<float> im(ei, IndexRange3D(0, 1, -1, 1, -3, 2), CartesianCoordinate3D<float>(0, 0, 0), CartesianCoordinate3D<float>(3.F, 2.F, 2.F));
+    im.fill(3.F);
+    InterfileOutputFileFormat fmt;
+    fmt.set_type_of_numbers(NumericType::SHORT);
+    std::string fn = c.dir + "/imgs";
+    fmt.write_to_file(fn, im);
+    c.written = "{\"x\":6,\"y\":3,\"z\":2}";
+    c.readers = { "img_direct", "img_generic" };
+    finish_case(c, "imgs.hv");
+  }
+  {  // projection data, user-defined scanner, span 1
+    HdrCase c; c.hid = ++hid; c.kind = "projdata"; c.dir = mkdir_case("pd"); c.hdrname = "mut.hs"; c.datafile = "pd.s";
+    auto sc = vh::make_scanner(8, 3);
+    shared_ptr<ProjDataInfo> pdi(ProjDataInfo::construct_proj_data_info(sc, 1, 2, 4, 5, false));
+    { ProjDataInterfile pd(ei, pdi, c.dir + "/pd.hs"); pd.fill(2.F); }
+    c.written = "{\"segs\":5,\"views\":4,\"bins\":5,\"tof\":1,\"axial\":[1,2,3,2,1]}";
+    c.readers = { "pd_direct", "pd_generic" };
+    finish_case(c, "pd.hs");
+  }
+  if (level > 0) {  // TOF projection data
+    HdrCase c; c.hid = ++hid; c.kind = "projdata"; c.dir = mkdir_case("pdtof"); c.hdrname = "mut.hs"; c.datafile = "pdtof.s";
+    auto sc = vh::make_scanner(8, 2, 5);
+    shared_ptr<ProjDataInfo> pdi(ProjDataInfo::construct_proj_data_info(sc, 1, 1, 4, 5, false, 1));
+    { ProjDataInterfile pd(ei, pdi, c.dir + "/pdtof.hs"); pd.fill(2.F); }
+    c.written = "{\"segs\":3,\"views\":4,\"bins\":5,\"tof\":5,\"axial\":[1,2,1]}";
+    c.readers = { "pd_direct", "pd_generic" };
+    finish_case(c, "pdtof.hs");
+  }
+  // items: one per (case, reader, mutation); the Hdr line of a case precedes its first item
+  struct Item { int c, r, m; };
+  std::vector<Item> items;
+  for (size_t ci = 0; ci < cases.size(); ++ci)
+    for (size_t ri = 0; ri < cases[ci].readers.size(); ++ri) {
+      if (!only.empty() && cases[ci].readers[ri] != only) continue;
+      for (size_t mi = 0; mi < cases[ci].muts.size(); ++mi) items.push_back({ (int)ci, (int)ri, (int)mi });
+    }
+  auto hdrline = [&](const HdrCase& c) {
+    return "{\"e\":\"Hdr\",\"hid\":" + std::to_string(c.hid) + ",\"kind\":" + c17::jstr(c.kind) + ",\"datafile\":" + c17::jstr(c.datafile) + ",\"datalen\":" + std::to_string(c.datalen)
+           + ",\"nl\":" + (c.nl ? "true" : "false") + ",\"written\":" + c.written + ",\"lines\":" + c17::jarr(c.lines) + "}\n";
+  };
+  auto head = [&](long k) {
+    const HdrCase& c = cases[items[k].c];
+    const Mutation& m = c.muts[items[k].m];
+    std::string pre = (items[k].m == 0) ? hdrline(c) : "";     // (a case's Hdr line is repeated per reader: harmless)
+    return pre + "{\"e\":\"Mut\",\"hid\":" + std::to_string(c.hid) + ",\"reader\":" + c17::jstr(c.readers[items[k].r]) + ",\"mut\":" + c17::jstr(m.kind) + ",\"at\":"
+           + std::to_string(m.at) + ",\"keep\":" + std::to_string(m.keep) + ",\"skip\":" + std::to_string(m.skip) + ",\"fresh\":" + c17::jarr(m.fresh) + ",\"nl\":"
+           + (m.nl ? "true" : "false") + ",";
+  };
+  auto item = [&](long k) {
+    const HdrCase& c = cases[items[k].c];
+    const Mutation& m = c.muts[items[k].m];
+    const std::string path = c.dir + "/" + c.hdrname;
+    {
+      std::ofstream f(path, std::ios::binary | std::ios::trunc);
+      auto L = mutated(c, m);
+      for (size_t j = 0; j < L.size(); ++j) { f << L[j]; if (j + 1 < L.size() || m.nl) f << '\n'; }
+    }
+    return head(k) + "\"obs\":" + run_reader(c.readers[items[k].r], path) + "}";
+  };
+  auto dead = [&](long k, const std::string& kind) {
+    const HdrCase& c = cases[items[k].c];
+    const std::string zeros = c.kind == "image" ? ",\"x\":0,\"y\":0,\"z\":0,\"minx\":0,\"miny\":0,\"minz\":0}" : ",\"segs\":0,\"views\":0,\"bins\":0,\"tof\":0,\"axial\":[],\"readok\":false}";
+    return head(k) + "\"obs\":{\"verdict\":\"abort\",\"kind\":" + c17::jstr(kind) + ",\"msg\":\"\"" + zeros + "}";
+  };
+  c17::run_guarded((long)items.size(), outpath, 10, item, dead);
+  return 0;
+}
+
 // ------------------------------------------------------------------------------------ part (c)
 struct RTItem { std::string registry, name; std::function<std::string()> run; };
 
@@ -199,6 +461,7 @@ int main(int argc, char** argv) {
   const std::string mode = argv[1];
   if (mode == "replay" && argc >= 4) return replay(argv[2], argv[3]);
   if (mode == "roundtrip" && argc >= 3) return roundtrip(argv[2]);
+  if (mode == "hdr" && argc >= 5) return hdr_mode(argv[2], argv[3], atoi(argv[4]), argc >= 6 ? argv[5] : "");
   fprintf(stderr, "usage: c17_keyparser replay|hdr|roundtrip ...\n");
   return 2;
 }
